@@ -212,8 +212,8 @@ func oracleC05(r *Result) ([]Violation, bool) {
 				if !sn.Blocked && sn.SIsLead && sn.SToken != sn.Token {
 					s.add(e.T, "status-token-differs", "%s: Token()=%s Status().Token=%s", sn.I, sn.Token, sn.SToken)
 				}
-				if e.Rec != nil && e.Rec.ID == sn.I && e.Rec.By == sn.I && e.Rec.Token != sn.Token {
-					s.add(e.T, "leader-token-differs-from-record", "%s leads with Token()=%s but its live record rev %d carries %s", sn.I, sn.Token, e.Rec.Rev, e.Rec.Token)
+				if rec := recOf(r, &e, sn.I); rec != nil && rec.ID == sn.I && rec.By == sn.I && rec.Token != sn.Token {
+					s.add(e.T, "leader-token-differs-from-record", "%s leads with Token()=%s but its live record rev %d carries %s", sn.I, sn.Token, rec.Rev, rec.Token)
 				}
 			}
 		}
@@ -356,10 +356,10 @@ func oracleC07(r *Result) ([]Violation, bool) {
 			if stoppedCall {
 				continue
 			}
-			if e.Rec == nil {
+			if rec := recOf(r, &e, sn.I); rec == nil {
 				s.add(e.T, "record-lapsed-under-leader", "%s leads at %v but the record has lapsed", sn.I, e.T)
-			} else if e.Rec.ID != sn.I {
-				s.add(e.T, "record-changed-owner-under-leader", "%s leads at %v but the live record rev %d is owned by %s", sn.I, e.T, e.Rec.Rev, e.Rec.ID)
+			} else if rec.ID != sn.I {
+				s.add(e.T, "record-changed-owner-under-leader", "%s leads at %v but the live record rev %d is owned by %s", sn.I, e.T, rec.Rev, rec.ID)
 			}
 		}
 	}
@@ -633,9 +633,9 @@ func oracleC18(r *Result) ([]Violation, bool) {
 					s.add(e.T, "gauge-differs", "%s: is-leader gauge is %d but IsLeader()=%v at %v", sn.I, sn.Gauge, sn.IsLeader, e.T)
 				}
 				// follower convergence
-				if sn.Started && !sn.StopDone && !sn.InStop && !sn.IsLeader && !sn.Cut && sn.WQ == 0 && sn.WDeliv > 0 && sn.Pend == 0 && e.Rec != nil && e.Rec.ID != "" && r.Scn.Tags["follower-convergence"] != "" {
-					if sn.LeaderID != e.Rec.ID {
-						s.add(e.T, "follower-leaderid-stale", "%s: follower's LeaderID()=%q at %v but the live record rev %d names %q and no watch event is pending", sn.I, sn.LeaderID, e.T, e.Rec.Rev, e.Rec.ID)
+				if rec := recOf(r, &e, sn.I); sn.Started && !sn.StopDone && !sn.InStop && !sn.IsLeader && !sn.Cut && sn.WQ == 0 && sn.WDeliv > 0 && sn.Pend == 0 && rec != nil && rec.ID != "" && r.Scn.Tags["follower-convergence"] != "" {
+					if sn.LeaderID != rec.ID {
+						s.add(e.T, "follower-leaderid-stale", "%s: follower's LeaderID()=%q at %v but the live record rev %d names %q and no watch event is pending", sn.I, sn.LeaderID, e.T, rec.Rev, rec.ID)
 					}
 				}
 			}
